@@ -23,7 +23,7 @@ theorem source_facts :
     addPathReadsInForce = true ∧ delPathReadsInForce = true ∧ walletReadsCfgMinValue = [] ∧
     useMapCntWriters = ["InitMaps", "LoadBalances"] ∧
     useMapCntSources = ["int(common.Get(&common.CFG.AllBalances.UseMapCnt))"] ∧
-    callbackPathSortedSearches = [] := by
+    delPathSortedSearches = [] := by
   decide
 
 /-- Reset leaves the minimum in force alone (by the generated fact `resetMayWriteMinVal = false`) -/
